@@ -86,6 +86,47 @@ func indexGuarded(r *Run, fl *Flow, e *ast.IndexExpr) (bool, string) {
 			return true, fmt.Sprintf("index ranges over another slice whose length was tested to equal len(%s)", ExprStr(e.X))
 		}
 	}
+	// (g6) I ranges over Y and len(X) >= len(Y) was established (the test `len(X) < len(Y)` failed)
+	if y, ok := rangeOver(e.Index); ok {
+		atLeast := func(val bool) func(c *Ctx, a ast.Expr) bool {
+			return func(c *Ctx, a ast.Expr) bool {
+				b, ok := ast.Unparen(a).(*ast.BinaryExpr)
+				if !ok {
+					return false
+				}
+				l, okL := lenOf(c, b.X)
+				rr, okR := lenOf(c, b.Y)
+				if !okL || !okR {
+					return false
+				}
+				op := b.Op
+				if l == y && rr == wantX {
+					l, rr = rr, l
+					switch op {
+					case token.LSS:
+						op = token.GTR
+					case token.LEQ:
+						op = token.GEQ
+					case token.GTR:
+						op = token.LSS
+					case token.GEQ:
+						op = token.LEQ
+					}
+				}
+				if l != wantX || rr != y {
+					return false
+				}
+				// len(X) op len(Y) has truth value val
+				if val {
+					return op == token.GEQ || op == token.GTR || op == token.EQL
+				}
+				return op == token.LSS || op == token.NEQ && false
+			}
+		}
+		if ControlledBy(fl, gn, atLeast(true), true) || ControlledBy(fl, gn, atLeast(false), false) {
+			return true, fmt.Sprintf("index ranges over another slice that was tested to be no longer than %s", ExprStr(e.X))
+		}
+	}
 	// (g5) I = A + J, J ranges over G, and `A + len(G) > len(X)` was tested and failed
 	if b, ok := ast.Unparen(e.Index).(*ast.BinaryExpr); ok && b.Op == token.ADD {
 		for _, pr := range [][2]ast.Expr{{b.X, b.Y}, {b.Y, b.X}} {
@@ -169,6 +210,8 @@ func indexGuarded(r *Run, fl *Flow, e *ast.IndexExpr) (bool, string) {
 					op = token.GEQ
 				case token.EQL:
 					op = token.NEQ
+				case token.NEQ:
+					op = token.EQL
 				default:
 					return false
 				}
@@ -183,6 +226,8 @@ func indexGuarded(r *Run, fl *Flow, e *ast.IndexExpr) (bool, string) {
 						return v >= k+1
 					case token.NEQ:
 						return v == 0 && k == 0
+					case token.EQL:
+						return v > k // len(X) == v and the constant index is below v
 					}
 				}
 				return false
